@@ -1309,6 +1309,8 @@ func (c *Conn) Read(b []byte) (int, error) {
 		if err := c.readRecord(); err != nil {
 			return 0, err
 		}
+		// 握手完成后收到的握手消息（迟到的重传等）没有消费者，直接丢弃，避免 handBuf 无限增长
+		c.handBuf.Reset()
 	}
 
 	n := copy(b, c.readBuf)
@@ -1462,7 +1464,7 @@ func (c *Conn) ReadFrom(p []byte) (n int, addr net.Addr, err error) {
 					return 0, c.remoteAddr, io.EOF
 				}
 			case recordTypeHandshake:
-				c.handBuf.Write(plaintext)
+				// 握手完成后收到的握手消息（迟到的重传等）没有消费者，直接丢弃
 			}
 			continue
 		}
